@@ -7,7 +7,7 @@ use super::*;
 macro_rules! vcover {
     ($($t:tt)*) => { if option_env!("VERIF_NO_COVER").is_none() { kani::cover!($($t)*); } };
 }
-use crate::verif_common::{instr_time_is_stored, instr_round_trip, instr_size_field, terminal_is_recognised, Stored, SizeField};
+use crate::verif_common::{read_instr_never_panics, decode_label_never_panics, instr_time_is_stored, instr_round_trip, instr_size_field, terminal_is_recognised, Stored, SizeField};
 
 macro_rules! c03 {
     ($name:ident, $unwind:literal, $body:expr) => {
@@ -16,6 +16,19 @@ macro_rules! c03 {
         #[kani::stub(alloc::fmt::format, crate::verif_common::stub_fmt_format)]
         #[kani::stub(crate::error::ErrorReported::new, crate::verif_common::stub_error_reported_new)]
         #[kani::stub(crate::io::nice_display_path, crate::verif_common::stub_nice_display_path)]
+        #[kani::stub(crate::llir::fit_instr_field, crate::verif_common::stub_fit_instr_field)]
+        #[kani::stub(crate::llir::forbid_reserved_opcode, crate::verif_common::stub_forbid_reserved_opcode)]
+        fn $name() { $body }
+    };
+}
+macro_rules! c16 {
+    ($name:ident, $unwind:literal, $body:expr) => {
+        #[kani::proof]
+        #[kani::unwind($unwind)]
+        #[kani::stub(alloc::fmt::format, crate::verif_common::stub_fmt_format)]
+        #[kani::stub(crate::error::ErrorReported::new, crate::verif_common::stub_error_reported_new)]
+        #[kani::stub(crate::io::nice_display_path, crate::verif_common::stub_nice_display_path)]
+        #[kani::stub(crate::diagnostic::RootEmitter::emit, crate::verif_common::stub_root_emit)]
         #[kani::stub(crate::llir::fit_instr_field, crate::verif_common::stub_fit_instr_field)]
         #[kani::stub(crate::llir::forbid_reserved_opcode, crate::verif_common::stub_forbid_reserved_opcode)]
         fn $name() { $body }
@@ -166,6 +179,21 @@ c03!(c03_anm_sprite_rt, 6, {
 c03!(c13_anm06_time_stored, 8, instr_time_is_stored::<4>(&InstrFormat06, Stored { param_mask: false, difficulty: false, extra_arg: false, pop_and_arg_count: false, maybe_terminal: true, ignore_param_mask: false }, |_| true));
 //@ C13 c13_anm07_time_stored quick default ANM v2+: if write_instr accepts an instruction, the time read back from the written bytes is the requested time, for every i32 time (a time that does not fit the field must be rejected, never stored differently)
 c03!(c13_anm07_time_stored, 8, instr_time_is_stored::<4>(&InstrFormat07, Stored { param_mask: true, difficulty: false, extra_arg: false, pop_and_arg_count: false, maybe_terminal: false, ignore_param_mask: false }, |_| true));
+
+// ---------------------------------------------------------------------------------------
+// C16, header level: see read_instr_never_panics / decode_label_never_panics in common.rs
+//@ C16 c16_anm06_read_size0 quick default ANM v0: read_instr on arbitrary header bytes whose size field is 0 (no arguments) returns Ok or Err and never panics (no underflow, no failed assert, no out-of-range read)
+c16!(c16_anm06_read_size0, 12, read_instr_never_panics::<4>(&InstrFormat06, 3, 1, 0));
+//@ C16 c16_anm06_read_size4 quick default ANM v0: read_instr on arbitrary header bytes whose size field is 4 (4 argument bytes) returns Ok or Err and never panics (no underflow, no failed assert, no out-of-range read)
+c16!(c16_anm06_read_size4, 12, read_instr_never_panics::<8>(&InstrFormat06, 3, 1, 4));
+//@ C16 c16_anm07_read_size0 quick default ANM v2+: read_instr on arbitrary header bytes whose size field is 0 (smaller than the header) returns Ok or Err and never panics (no underflow, no failed assert, no out-of-range read)
+c16!(c16_anm07_read_size0, 12, read_instr_never_panics::<8>(&InstrFormat07, 2, 2, 0));
+//@ C16 c16_anm07_read_size7 quick default ANM v2+: read_instr on arbitrary header bytes whose size field is 7 (one less than the header) returns Ok or Err and never panics (no underflow, no failed assert, no out-of-range read)
+c16!(c16_anm07_read_size7, 12, read_instr_never_panics::<8>(&InstrFormat07, 2, 2, 7));
+//@ C16 c16_anm07_read_size8 quick default ANM v2+: read_instr on arbitrary header bytes whose size field is 8 (header only) returns Ok or Err and never panics (no underflow, no failed assert, no out-of-range read)
+c16!(c16_anm07_read_size8, 12, read_instr_never_panics::<8>(&InstrFormat07, 2, 2, 8));
+//@ C16 c16_anm07_read_size12 quick default ANM v2+: read_instr on arbitrary header bytes whose size field is 12 (4 argument bytes) returns Ok or Err and never panics (no underflow, no failed assert, no out-of-range read)
+c16!(c16_anm07_read_size12, 16, read_instr_never_panics::<12>(&InstrFormat07, 2, 2, 12));
 
 #[cfg(kani)]
 #[path = "/verif/.cache/playback/anm_read_write.rs"]
